@@ -73,9 +73,13 @@ class IndexKernel(Kernel):
         if prior is not None:
             if not isinstance(prior, Prior):
                 raise TypeError("Expected gpytorch.priors.Prior but got " + type(prior).__name__)
-            self.register_prior("IndexKernelPrior", prior, lambda m: m._eval_covar_matrix())
+            self.register_prior("IndexKernelPrior", prior, self._covar_matrix_param)
 
         self.register_constraint("raw_var", var_constraint)
+
+    def _covar_matrix_param(self, m):
+        # Used by the priors registered in __init__ (a method rather than a lambda: the module stays picklable)
+        return m._eval_covar_matrix()
 
     @property
     def var(self):
